@@ -199,6 +199,8 @@ func stdSeqRepeat(_ context.Context, arg rel.Value) (rel.Value, error) {
 				values = append(values, seqValues...)
 			}
 			return rel.NewArray(values...), nil
+		case rel.Bytes:
+			return rel.NewBytes(bytes.Repeat(seq.Bytes(), n)), nil
 		case rel.Set:
 			if !seq.IsTrue() {
 				return rel.None, nil
